@@ -6,6 +6,7 @@
 package progs
 
 import (
+	"context"
 	"fmt"
 	"sync"
 	"sync/atomic"
@@ -422,6 +423,50 @@ var All = []Prog{
 		defer gMu.Unlock()
 		return fmt.Sprint(gCount - start)
 	}, []string{"2"}},
+	{"context/cancel-vs-send", func() string {
+		ctx, cancel := context.WithCancel(context.Background())
+		ch := make(chan int)
+		go func() { cancel() }()
+		go func() {
+			select {
+			case ch <- 1:
+			case <-ctx.Done():
+			}
+		}()
+		select {
+		case v := <-ch:
+			return fmt.Sprint("got ", v)
+		case <-ctx.Done():
+			return fmt.Sprint("cancelled ", ctx.Err())
+		}
+	}, []string{"cancelled context canceled", "got 1"}},
+	{"context/timeout-fires-when-nothing-else-can-happen", func() string {
+		ctx, cancel := context.WithTimeout(context.Background(), time.Millisecond)
+		defer cancel()
+		<-ctx.Done()
+		return fmt.Sprint(ctx.Err())
+	}, []string{"context deadline exceeded"}},
+	{"context/parent-cancels-child", func() string {
+		parent, cancel := context.WithCancel(context.Background())
+		child, cancel2 := context.WithTimeout(context.WithValue(parent, "k", 1), time.Hour)
+		defer cancel2()
+		go cancel()
+		<-child.Done()
+		return fmt.Sprint(child.Err(), parent.Err(), child.Value("k"))
+		// timers are untimed in the model: the one-hour deadline may also win
+	}, []string{"context canceled context canceled 1", "context deadline exceeded <nil> 1", "context deadline exceeded context canceled 1"}},
+	{"context/timeout-vs-receive", func() string {
+		ctx, cancel := context.WithTimeout(context.Background(), 20*time.Millisecond)
+		defer cancel()
+		ch := make(chan int, 1)
+		go func() { ch <- 5 }()
+		select {
+		case v := <-ch:
+			return fmt.Sprint(v)
+		case <-ctx.Done():
+			return "timeout"
+		}
+	}, []string{"5", "timeout"}},
 	{"pool/nil-new", func() string {
 		var p sync.Pool
 		return fmt.Sprint(p.Get())
